@@ -78,10 +78,14 @@ def translators():
   return out
 
 
+PARTIAL = {}   # translator name -> {unit: reason}: units the translator left out (their dependents do not compile)
+
+
 def regenerate():
   """re-run every translator on /repo's working tree.  Returns {name: None | error string}."""
   os.makedirs(GEN, exist_ok=True)
   status = {}
+  PARTIAL.clear()
   for name, fn in translators().items():
     path = os.path.join(GEN, name + '.v')
     try:
@@ -99,6 +103,9 @@ def regenerate():
       with open(path, 'w') as f:
         f.write(text)
     status[name] = None
+    mod = sys.modules.get('translate_' + name[4:])
+    if mod is not None and getattr(mod, 'FAILED', None):
+      PARTIAL[name] = dict(mod.FAILED)
   return status
 
 
@@ -280,6 +287,9 @@ class Ctx:
         self.obligations = [(t, False) for t in thms]
         m = re.findall(r'File "([^"]+)", line (\d+)[^\n]*\n(Error:[^\n]*(?:\n[^\n]+){0,6})', out)
         where = "; ".join("%s:%s %s" % (os.path.basename(f), l, e.replace('\n', ' ')[:300]) for f, l, e in m[:2])
+        for g, units in PARTIAL.items():
+          for u, why in units.items():
+            self.break_tie('translator', '%s: %s' % (g, u), "not in the translated subset (definition left out of gen/%s.v): %s" % (g, why))
         self.break_tie('obligation', 'Properties/%s.v (or a lemma it depends on)' % self.prop, where or out[-1500:])
         return False
       # recompile the property file itself to capture Print Assumptions
@@ -289,6 +299,9 @@ class Ctx:
       self.break_tie('obligation', 'Properties/%s.v' % self.prop, out[-1500:])
       return False
     self.obligations = [(t, True) for t in thms]
+    for g, units in PARTIAL.items():
+      for u, why in units.items():
+        self.notes.append("translator %s left out %s (%s); nothing this property's theorems or cases use depends on it" % (g, u, why))
     self.assumptions = parse_assumptions(out)
     extra = [a for a in self.assumptions if a not in STD_AXIOMS]
     if extra:
